@@ -23,27 +23,21 @@ Proof.
   - simpl. rewrite HN. reflexivity.
 Qed.
 
-Lemma rollback_std_clean c : forallb only_clean (rollback_std c false) = true.
-Proof. unfold rollback_std. destruct (g_fixed c); reflexivity. Qed.
-Lemma rollback_std_cleans_perm c r : cleans (rollback_std c r) 1 = true.
-Proof. unfold rollback_std. destruct (g_fixed c); reflexivity. Qed.
-Lemma rollback_std_cleans_temp c r : g_fixed c = true -> cleans (rollback_std c r) 2 = true.
-Proof. unfold rollback_std. intros ->. reflexivity. Qed.
+Lemma rollback_std_clean : forallb only_clean (rollback_std false) = true.
+Proof. reflexivity. Qed.
+Lemma rollback_std_cleans r status : cleans (rollback_std r) status = true.
+Proof. unfold rollback_std, cleans, is_perm. simpl. destruct (status =? 1); reflexivity. Qed.
 
-(* CalcKriging: not DGM; outputs permanent (all targets) or roll-back as in the proposed fix *)
+(* CalcKriging: every option except DGM (all targets or single target) *)
 Lemma wf_kriging c gout din dout :
-  g_dgm c = false -> (g_single c < 0 \/ g_fixed c = true) ->
+  g_dgm c = false ->
   expand_noop L_F din dout = true -> expand_noop L_NOSTAT din dout = true ->
   wf_atomic (kriging c gout) din dout = true.
 Proof.
-  intros Hd Hs HF HN.
-  assert (Hst : cleans (rollback_std c false) (if 0 <=? g_single c then 2 else 1) = true).
-  { destruct Hs as [Hs|Hs].
-    - assert ((0 <=? g_single c) = false) as -> by (apply Z.leb_gt; exact Hs). apply rollback_std_cleans_perm.
-    - destruct (0 <=? g_single c); [apply rollback_std_cleans_temp; exact Hs | apply rollback_std_cleans_perm]. }
-  assert (Hpre : forallb (safe_op (rollback_std c false) din dout) (kriging_pre c gout) = true).
+  intros Hd HF HN.
+  assert (Hpre : forallb (safe_op (rollback_std false) din dout) (kriging_pre c gout) = true).
   { unfold kriging_pre. rewrite Hd. simpl. rewrite !forallb_app.
-    repeat (apply andb_true_intro; split); try (apply forallb_if; simpl; rewrite Hst; reflexivity); try reflexivity.
+    repeat (apply andb_true_intro; split); try (apply forallb_if; simpl; destruct (0 <=? g_single c); reflexivity); try reflexivity.
     apply pre_interp_safe; assumption. }
   assert (Hpost : forallb cannot_fail (kriging_post c) = true).
   { unfold kriging_post. rewrite Hd. split_ifs; reflexivity. }
@@ -51,53 +45,54 @@ Proof.
   change (k_pre (kriging c gout)) with (kriging_pre c gout).
   change (k_run (kriging c gout)) with [OBody 3].
   change (k_post (kriging c gout)) with (kriging_post c).
-  change (k_rollback (kriging c gout)) with (rollback_std c (g_dgm c)).
+  change (k_rollback (kriging c gout)) with (rollback_std (g_dgm c)).
   rewrite Hd, Hpre, Hpost, rollback_std_clean. reflexivity.
 Qed.
 
 Lemma wf_migrate c din dout : wf_atomic (migrate c) din dout = true.
 Proof.
-  unfold wf_atomic, migrate; simpl. rewrite rollback_std_clean, rollback_std_cleans_perm. simpl.
-  destruct (g_locate c); reflexivity.
+  unfold wf_atomic, migrate; simpl. destruct (g_locate c); reflexivity.
 Qed.
 
 Lemma wf_stats c gout din dout : wf_atomic (stats c gout) din dout = true.
 Proof.
-  unfold wf_atomic, stats; simpl. rewrite rollback_std_clean.
-  destruct (g_mode c =? 0); simpl; rewrite rollback_std_cleans_perm; reflexivity.
+  unfold wf_atomic, stats; simpl. destruct (g_mode c =? 0); reflexivity.
+Qed.
+
+Lemma wf_anam c din dout : wf_atomic (anam c) din dout = true.
+Proof.
+  unfold wf_atomic, anam; simpl. destruct (g_mode c =? 0); reflexivity.
 Qed.
 
 Lemma wf_simpleint c din dout :
   expand_noop L_F din dout = true -> expand_noop L_NOSTAT din dout = true ->
   wf_atomic (simpleint c) din dout = true.
 Proof.
-  intros HF HN. unfold wf_atomic, simpleint; simpl. rewrite rollback_std_clean.
+  intros HF HN. unfold wf_atomic, simpleint; simpl.
   rewrite !forallb_app. rewrite pre_interp_safe by assumption. simpl.
-  destruct (g_est c), (g_std c); simpl; rewrite ?rollback_std_cleans_perm; reflexivity.
+  destruct (g_est c), (g_std c); reflexivity.
 Qed.
 
-(* CalcGridToGrid: without the auxiliary temporary variable of the "shrink" option, or with the fixed roll-back *)
-Lemma wf_g2g c din dout : (g_mode c <> 1 \/ g_fixed c = true) -> wf_atomic (g2g c) din dout = true.
+(* CalcGridToGrid, including the auxiliary temporary variable of the "shrink" option *)
+Lemma wf_g2g c din dout : wf_atomic (g2g c) din dout = true.
 Proof.
-  intro H. unfold wf_atomic, g2g; simpl. rewrite rollback_std_clean, rollback_std_cleans_perm. simpl.
-  destruct (g_mode c =? 1) eqn:E; simpl; [|reflexivity].
-  destruct H as [H|H]; [apply Z.eqb_eq in E; contradiction|]. rewrite (rollback_std_cleans_temp _ _ H). reflexivity.
+  unfold wf_atomic, g2g; simpl. destruct (g_mode c =? 1); reflexivity.
 Qed.
 
 Lemma wf_image c opkey din dout :
   expand_noop L_F din dout = true -> expand_noop L_NOSTAT din dout = true ->
   wf_atomic (image c opkey) din dout = true.
 Proof.
-  intros HF HN. unfold wf_atomic, image; simpl. rewrite rollback_std_clean.
+  intros HF HN. unfold wf_atomic, image; simpl.
   rewrite !forallb_app. rewrite pre_interp_safe by assumption. simpl.
-  destruct (g_mode c =? 0), (g_mode c =? 1); simpl; rewrite ?rollback_std_cleans_perm; reflexivity.
+  destruct (g_mode c =? 0), (g_mode c =? 1); reflexivity.
 Qed.
 
 Lemma wf_global c gout din dout :
   expand_noop L_F din dout = true -> expand_noop L_NOSTAT din dout = true ->
   wf_atomic (global c gout) din dout = true.
 Proof.
-  intros HF HN. unfold wf_atomic, global; simpl. rewrite rollback_std_clean.
+  intros HF HN. unfold wf_atomic, global; simpl.
   rewrite pre_interp_safe by assumption. reflexivity.
 Qed.
 
@@ -155,6 +150,9 @@ Proof. intro H. unfold wf_success, migrate; simpl. rewrite H. reflexivity. Qed.
 Lemma wf_success_stats c gout din dout : wf_success (stats c gout) din dout = true.
 Proof. unfold wf_success, stats; simpl. destruct (g_mode c =? 0); reflexivity. Qed.
 
+Lemma wf_success_anam c din dout : wf_success (anam c) din dout = true.
+Proof. unfold wf_success, anam; simpl. destruct (g_mode c =? 0); reflexivity. Qed.
+
 Lemma wf_success_simpleint c din dout :
   expand_noop L_F din dout = true -> expand_noop L_NOSTAT din dout = true ->
   wf_success (simpleint c) din dout = true.
@@ -167,3 +165,78 @@ Qed.
 
 Lemma wf_success_g2g c din dout : wf_success (g2g c) din dout = true.
 Proof. unfold wf_success, g2g; simpl. destruct (g_mode c =? 1); reflexivity. Qed.
+
+(* kriging without any variable in dbin is refused by _check (fix C19_5) *)
+Lemma kriging_no_variable c gout din dout fs fk :
+  g_neigh_only c = false -> locnum din L_Z = 0 ->
+  failing_stage (kriging c gout) (init_st din dout false) fs fk = 1 /\
+  calc_run (kriging c gout) (init_st din dout false) fs fk =
+    (false, exec_quiet (g_nc c) (rollback_std (g_dgm c)) (init_st din dout false)).
+Proof.
+  intros Hn Hz.
+  assert (Hc : k_check (kriging c gout) (init_st din dout false) = false).
+  { change (k_check (kriging c gout)) with (kriging_check c gout). unfold kriging_check.
+    change (getdb WIn (init_st din dout false)) with din. rewrite Hn, Hz. simpl. apply andb_false_r. }
+  unfold failing_stage, calc_run. rewrite Hc. simpl. split; reflexivity.
+Qed.
+
+(* ------------------------------------------------------------------ simulations: variables created with the SIMU locator *)
+From Gst Require Import C19.ProofsLoc.
+
+Definition tch_simu (t : Z) : bool := t =? L_SIMU.
+
+Lemma pre_interp_safeT rb c din dout :
+  expand_noop L_F din dout = true -> expand_noop L_NOSTAT din dout = true ->
+  forallb (safe_opT tch_simu rb din dout) (pre_interp c) = true.
+Proof.
+  intros HF HN. unfold pre_interp. rewrite forallb_app. apply andb_true_intro; split.
+  - apply forallb_if. simpl. rewrite HF. reflexivity.
+  - simpl. rewrite HN. reflexivity.
+Qed.
+
+Lemma simfft_atomic c gout din dout fs fk s' :
+  Inv din -> Inv dout -> getloc (d_locs din) L_SIMU = [] -> getloc (d_locs dout) L_SIMU = [] ->
+  expand_noop L_F din dout = true -> expand_noop L_NOSTAT din dout = true -> fs <> 4 ->
+  calc_run (simfft c gout) (init_st din dout false) fs fk = (false, s') ->
+  (db_eq (s_in s') din /\ Inv (s_in s')) /\ (db_eq (s_out s') dout /\ Inv (s_out s')).
+Proof.
+  intros Hi Ho Si So HF HN Hfs Hrun.
+  assert (Hti : forall t, tch_simu t = true -> getloc (d_locs din) t = []).
+  { intros t Ht. apply Z.eqb_eq in Ht. subst t. exact Si. }
+  assert (Hto : forall t, tch_simu t = true -> getloc (d_locs dout) t = []).
+  { intros t Ht. apply Z.eqb_eq in Ht. subst t. exact So. }
+  assert (Hpre : forallb (safe_opT tch_simu (k_rollback (simfft c gout)) din dout) (k_pre (simfft c gout)) = true).
+  { simpl. rewrite forallb_app. rewrite pre_interp_safeT by assumption. reflexivity. }
+  assert (Hpost : forall s, TrackedT tch_simu (k_rollback (simfft c gout)) din dout s ->
+                            fst (exec_ops (k_nc (simfft c gout)) (k_post (simfft c gout)) s None) = true).
+  { intros s _. apply exec_ops_cannot_fail. reflexivity. }
+  exact (atomic_touched (simfft c gout) tch_simu din dout fs fk s' Hi Ho eq_refl Hti Hto Hpre eq_refl eq_refl Hpost Hfs Hrun).
+Qed.
+
+Lemma simtub_atomic c gout din dout fs fk s' :
+  Inv din -> Inv dout -> g_dgm c = false ->
+  getloc (d_locs din) L_SIMU = [] -> getloc (d_locs dout) L_SIMU = [] ->
+  expand_noop L_F din dout = true -> expand_noop L_NOSTAT din dout = true -> fs <> 4 ->
+  calc_run (simtub c gout) (init_st din dout false) fs fk = (false, s') ->
+  (db_eq (s_in s') din /\ Inv (s_in s')) /\ (db_eq (s_out s') dout /\ Inv (s_out s')).
+Proof.
+  intros Hi Ho Hd Si So HF HN Hfs Hrun.
+  assert (Hti : forall t, tch_simu t = true -> getloc (d_locs din) t = []).
+  { intros t Ht. apply Z.eqb_eq in Ht. subst t. exact Si. }
+  assert (Hto : forall t, tch_simu t = true -> getloc (d_locs dout) t = []).
+  { intros t Ht. apply Z.eqb_eq in Ht. subst t. exact So. }
+  assert (Hpre : forallb (safe_opT tch_simu (k_rollback (simtub c gout)) din dout) (k_pre (simtub c gout)) = true).
+  { simpl. rewrite Hd. simpl. rewrite !forallb_app. rewrite pre_interp_safeT by assumption.
+    destruct (g_has_in c); reflexivity. }
+  assert (Hrb : forallb only_clean (k_rollback (simtub c gout)) = true) by (simpl; rewrite Hd; reflexivity).
+  assert (Hpost : forall s, TrackedT tch_simu (k_rollback (simtub c gout)) din dout s ->
+                            fst (exec_ops (k_nc (simtub c gout)) (k_post (simtub c gout)) s None) = true).
+  { intros s T. simpl k_post. simpl k_nc. rewrite Hd. simpl app.
+    assert (T1 : TrackedT tch_simu (k_rollback (simtub c gout)) din dout (clean_variables 2 s)).
+    { apply (exec_op_safeT din dout Hi Ho tch_simu eq_refl Hti Hto _ (g_nc c) (OClean 2) s true); [exact T | reflexivity | reflexivity]. }
+    cbn [exec_ops exec_op option_map].
+    rewrite (expand_noop_sameT din dout tch_simu eq_refl _ L_F _ T1 HF eq_refl).
+    rewrite (expand_noop_sameT din dout tch_simu eq_refl _ L_NOSTAT _ T1 HN eq_refl).
+    reflexivity. }
+  exact (atomic_touched (simtub c gout) tch_simu din dout fs fk s' Hi Ho eq_refl Hti Hto Hpre eq_refl Hrb Hpost Hfs Hrun).
+Qed.
